@@ -50,7 +50,7 @@ class Project:
         return t
 
 
-def generate(rng, rep=None, odd_names=False, n_exe=2, n_lib=1, with_commands=True, with_tests=True, with_yacc=True):
+def generate(rng, rep=None, odd_names=False, n_exe=2, n_lib=1, with_commands=True, with_tests=True, with_yacc=True, with_genhdr=True):
     """Returns a Project. Options are raw strings beginning with -D so that gcc-like tools accept any content."""
     p = Project()
     L = p.lines
@@ -104,20 +104,35 @@ def generate(rng, rep=None, odd_names=False, n_exe=2, n_lib=1, with_commands=Tru
             # sources in a language that is TRANSLATED to C first (yacc; harness/stubs/yacc stands in for bison): a step with
             # two outputs - translation unit and header, which the Make backend routes through a stamp file - and a step with
             # one named output, each with options of its own; the program compiles and links what they produce
+            # The steps of one translator share whatever a backend emits ONCE per tool (the Ninja `rule`, the Make
+            # `define`), so the shapes are MIXED and their order is drawn: default outputs (two, named after the source)
+            # and one explicitly named output - always at least one step of each shape, either of them first, sometimes
+            # a third step of either shape. (generated_source() accepts no list of two names, and directory= does not
+            # combine with the two default names: the two shapes are all the builtin offers for this tool.)
             yrng = random.Random(rng.random())
             yd = odd_name(yrng, 'yd', odd_names)
-            y2 = '%s/%s.y' % (yd, odd_name(yrng, 'gram', odd_names))
-            y1 = odd_name(yrng, 'single', odd_names) + '.y'
-            p.files[y2] = p.files[y1] = '%%\n'
-            y2opts = ['-DY2_%d=%s' % (k, adversarial_arg(yrng, rep)) for k in range(yrng.randint(1, 3))]
-            y1opts = ['-DY1=%s' % adversarial_arg(yrng, rep)] if yrng.random() < 0.7 else []
-            y1out = 'ygen/%s.c' % odd_name(yrng, 'one', odd_names)
-            L.append("gy2 = generated_source(file=%s, options=%s)" % (pyrepr(y2), pyrepr(y2opts)))
-            L.append("gy1 = generated_source(%s, %s, options=%s)" % (pyrepr(y1out), pyrepr(y1), pyrepr(y1opts)))
-            gensrcs = ' + [gy2[0], gy1]'
-            p.steps.append({'kind': 'generate', 'source': y2, 'options': y2opts, 'outputs': [y2[:-2] + '.tab.c', y2[:-2] + '.tab.h'],
-                            'owner': ename})
-            p.steps.append({'kind': 'generate', 'source': y1, 'options': y1opts, 'outputs': [y1out], 'owner': ename})
+            shapes = ['default2', 'named1']
+            if yrng.random() < 0.5:
+                shapes.reverse()
+            if yrng.random() < 0.4:
+                shapes.insert(yrng.randint(0, 2), yrng.choice(['default2', 'named1']))
+            p.yacc_shapes = list(shapes)
+            gvars = []
+            for k, shape in enumerate(shapes):
+                var = 'gy%d' % k
+                ysrc = ('%s/%s.y' % (yd, odd_name(yrng, 'gram%d' % k, odd_names)) if shape != 'named1' or yrng.random() < 0.3
+                        else odd_name(yrng, 'single%d' % k, odd_names) + '.y')
+                p.files[ysrc] = '%%\n'
+                yopts = ['-DY%d_%d=%s' % (k, j, adversarial_arg(yrng, rep)) for j in range(yrng.randint(0 if shape == 'named1' else 1, 3))]
+                if shape == 'default2':
+                    youts = [ysrc[:-2] + '.tab.c', ysrc[:-2] + '.tab.h']
+                    L.append("%s = generated_source(file=%s, options=%s)" % (var, pyrepr(ysrc), pyrepr(yopts)))
+                else:
+                    youts = [yrng.choice(['ygen/', 'ygen/deep/', '']) + odd_name(yrng, 'one%d' % k, odd_names) + '.c']
+                    L.append("%s = generated_source(%s, %s, options=%s)" % (var, pyrepr(youts[0]), pyrepr(ysrc), pyrepr(yopts)))
+                gvars.append(var + '[0]' if len(youts) == 2 else var)
+                p.steps.append({'kind': 'generate', 'source': ysrc, 'options': yopts, 'outputs': youts, 'owner': ename, 'shape': shape})
+            gensrcs = ' + [%s]' % ', '.join(gvars)
         pch = ''
         if i == n_exe - 1 and rng.random() < 0.5:
             # a precompiled header: its step and the steps that use it must be the same in every backend (which file is
@@ -125,6 +140,19 @@ def generate(rng, rep=None, odd_names=False, n_exe=2, n_lib=1, with_commands=Tru
             p.files['pch%d.h' % i] = '#define PCH%d 1\n' % i
             L.append("pch%d = precompiled_header(file='pch%d.h')" % (i, i))
             pch = ', pch=pch%d' % i
+        if with_genhdr and i == n_exe - 1:
+            # header FILES produced by steps of the project and handed over through includes=: the directory of each
+            # becomes an include directory of the program's compile steps. One header is generated at the TOP of the build
+            # directory (the include directory is the build directory itself, the path with the empty suffix), others in
+            # (nested) sub-directories of it. (A stream of its own: the draws of the rest of the project stay what they were.)
+            hrng = random.Random('genhdr:%r' % ((ename, srcs, copts),))
+            hdrs = ['topcfg.h'] + hrng.sample(['hgen/sub.h', 'hgen/deep/er/deep.h', odd_name(hrng, 'hodd', odd_names) + '/odd.h'],
+                                             hrng.randint(0, 2))
+            hrng.shuffle(hdrs)
+            for k, h in enumerate(hdrs):
+                L.append("ghdr%d = build_step(%s, cmd=[%s, '-o', %s, 'genhdr'])" % (k, pyrepr(h), pyrepr(shtools.ARGVREC), pyrepr(h)))
+            pch += ', includes=[%s]' % ', '.join('ghdr%d' % k for k in range(len(hdrs)))
+            p.generated_headers = hdrs
         L.append("exe%d = executable(%s, files=%s%s, compile_options=%s, link_options=%s, libs=[%s]%s)" % (
             i, pyrepr(ename), pyrepr(srcs), gensrcs, pyrepr(copts), pyrepr(lopts), ', '.join(use), pch))
         for s in srcs:
@@ -317,6 +345,37 @@ def generate_graph(rng, rep=None):
         link_step('ln_' + mode[0] + '2', 'links2/data.' + mode, 'lk', lk, mode, consumer=coin(0.7))
     if coin():
         link_step('ln_ss', 'links/chain.lnk', 'ln_s', ln_s, 'symlink')
+    # steps with SEVERAL command lines (cmds=[line, line, ...]) whose file objects - source files and generated files - are
+    # named in different lines: the first only, a middle one only, the last only, the first and the last. Whichever line
+    # names a file, the step consumes it. (Only the last line creates the output.)
+    gen_objs = [('lk', lk)] + ([('conf', conf)] if conf else []) + ([('bs[%d]' % j, o) for j, o in enumerate(multi)] if multi else [])
+    for v in range(rng.randint(1, 2)):
+        nl = rng.choice([2, 3, 3])
+        out = rng.choice(['ml/', 'ml/deep/', '']) + 'lines%d.out' % v
+        lines = [[repr(rec), repr('ml%d-line%d' % (v, j))] for j in range(nl)]
+        lines[-1] += [repr('-o'), repr(out)]
+        places = [[0], [0, nl - 1], [nl - 1]] + ([[1]] if nl == 3 else [[0]])
+        rng.shuffle(places)
+        cons = []
+        # at least: a source file and a generated file outside the last line, something named twice, something in the last
+        objs = [('src', None), ('gen', rng.choice(gen_objs))] + [rng.choice([('src', None), ('gen', rng.choice(gen_objs))])
+                                                                 for _ in range(rng.randint(1, 2))]
+        srcplaces = [places[0], places[1]] + [rng.choice(places) for _ in objs[2:]]      # (only one placement is last-line-only)
+        for k, ((what, g), where) in enumerate(zip(objs, srcplaces)):
+            if what == 'src':
+                f = 'ml/in%d_%d.dat' % (v, k)
+                L.append("ml_in%d_%d = generic_file(%r)" % (v, k, f))
+                var, cname = 'ml_in%d_%d' % (v, k), src(f)
+            else:
+                var, cname = g
+            for j in where:
+                lines[j].append(var)
+            if cname not in cons:
+                cons.append(cname)
+        L.append("ml%d = build_step(%r, cmds=[%s])" % (v, out, ', '.join('[%s]' % ', '.join(l) for l in lines)))
+        G.append({'out': out, 'outs': [out], 'consumes': cons, 'multi': False,
+                  'lines': [[x for x in l[2:] if not x.startswith("'")] for l in lines]})
+        defaults.append('ml%d' % v)
     # a versioned shared library (real file, soname link, development link: bfg creates the two links as symlink-mode
     # copies) and an executable that links it
     if coin(0.8):
